@@ -65,6 +65,7 @@ pub fn generate(rng: &mut Rng, tier: Tier, stats: &mut GenStats) -> Scenario {
             victims: vec![],
             layers: vec![],
             taps: g.rng.chance(1, 4),
+            erased: false,
         });
     }
     let schedule = interleaving(g.rng, nw, tree.len());
